@@ -34,25 +34,32 @@ CONFIG = {
         "Coq Reals: theorems over R depend on the stdlib axioms ClassicalDedekindReals.sig_forall_dec, sig_not_dec, "
         "FunctionalExtensionality.functional_extensionality_dep (and Classical_Prop.classic through lra/nra/field)",
     ],
-    "level_text": "PARTIAL. Proved in coq/Properties/C18.v for all inputs/histories of the model: (over R) recombination weights "
-                  "ln(mu+1/2)-ln(i) normalised are positive, strictly decreasing and sum to 1; the recombined mean lies coordinate-wise "
-                  "in the hull of the selected parents; zero parents change nothing but the counter; sigma stays > 0 over every tell "
-                  "history of CMA-ES, sep-CMA-ES and LM-MA-ES; the CMA-ES covariance stays symmetric positive semi-definite and the "
-                  "sep-CMA-ES diagonal non-negative (positive when alpha > 0) over every history, with alpha = 1-c1a-cmu >= 0 and "
-                  "beta, gamma >= 0 DERIVED from the constants' definitions; tell does not depend on ranking values; reset gives the "
-                  "initial distribution; (over arbitrary draw streams) after ask every recorded noise row is the draw that produced the "
-                  "returned row, in bounds, each draw used at most once (LM-MA-ES _solution_z, OpenAI-ES noise incl. mirror sampling), and the "
-                  "unchanged OpenAI-ES without mirror sampling is REFUTED (F10); (translated from the current source) AdamOpt.step and "
-                  "GradientAscentOpt.step equal the published ascent rules for all arguments (ring/field over R with uninterpreted "
-                  "sqrt/pow). Everything else is tied or observed by the correspondence run.",
-    "level_note": "Partial by nature: NOT proved, only harness-observed on every run -- that samples are distributed around the mean "
-                  "with the current scale/shape (sample-moment observation), convergence on a convex quadratic (observation per strategy "
-                  "incl. pycma), floating-point finiteness of sigma/mean/cov, and everything about pycma (external; held to bounds, "
-                  "finiteness, reset, convergence). The real-number model treats C^(-1/2) (numpy.linalg.eigh) as an uninterpreted "
-                  "function -- no theorem needs a property of it. sep-CMA-ES: 'diagonal stays positive' is proved under alpha > 0 "
-                  "(alpha = 0 is reachable: solution_dim 1 with >= ~26 parents) and as 'non-negative' unconditionally. The theorems are "
-                  "about the hand-written models; the tie to the Python code is the sampled correspondence (discrete structure exact, "
-                  "numerics to 1e-9) plus the translated Adam/GA fragments. OpenAI-ES ignores num_parents by design (it always uses the "
+    "level_text": "PARTIAL. Proved in coq/Properties/C18.v for ALL inputs/histories of the models. Over R (Model/OptReal.v): C18_weights "
+                  "(w_i = (ln(mu+1/2)-ln i)/total are positive, strictly decreasing in the rank, sum to 1); C18_mean_in_hull / C18_mean_formula (the mean "
+                  "after tell is the w-weighted sum of the samples at the first num_parents ranking positions and lies coordinate-wise between the "
+                  "smallest and largest parent coordinate; CMA-ES, sep-CMA-ES, LM-MA-ES); C18_zero_parents (num_parents = 0: only current_eval += "
+                  "len(ranking) resp. current_gens += 1 changes); C18_sigma_pos (sigma' = sigma*exp(.) > 0 by induction over every history of "
+                  "ask/tell/reset); C18_cov_psd_sym (CMA-ES covariance symmetric with x^T C x >= 0, sep-CMA-ES diagonal >= 0, over every history and for "
+                  "every C^(-1/2) the tells are given), with the coefficient conditions 0 <= c1a <= c1, 0 <= cmu <= 1-c1, alpha = 1-c1a-cmu >= 0 DERIVED "
+                  "from the code's formulas for every dimension >= 1 and parent count >= 1 (C18_cov_coefficients_cma/_sep, C18_cov_update_shape); "
+                  "C18_order_only(_histories) (tell never reads ranking values); C18_reset / C18_reset_then_like_fresh / C18_initial_distribution. Over "
+                  "arbitrary draw streams (Model/Opt.v, extracted): C18_bookkeeping / resample_all_in_bounds (for every stream and fuel, when ask returns, "
+                  "row i of the recorded noise is the draw stream[pos i] that produced returned row i, the row is in bounds, pos is injective: one draw "
+                  "per row), C18_ask_fuel, C18_bookkeeping_mirror, and the unchanged OpenAI-ES without mirror sampling is REFUTED (F10). Translated from the "
+                  "current source: C18_adam_rule / C18_gradient_ascent_rule (AdamOpt.step, GradientAscentOpt.step equal the published ascent rules for "
+                  "all arguments; ring/field over R with uninterpreted sqrt/pow).",
+    "level_note": "NOT proved, only observed by the harness on every run: (1) finiteness of sigma/mean/covariance under floating point (checked after every "
+                  "tell of the random histories); (2) that samples are distributed around the mean with the current scale/shape (sample-moment observation "
+                  "per strategy, generous thresholds); (3) convergence on a convex quadratic (one run per strategy incl. pycma, generous budget, under an "
+                  "alarm so that a diverging optimizer is reported instead of hanging); (4) everything about the pycma wrapper (external: bounds, "
+                  "finiteness, reset, convergence only). C18_sep_diag_pos_partial: 'the sep-CMA-ES diagonal stays STRICTLY positive' is proved only for "
+                  "tells with alpha > 0; alpha = 0 is reachable (solution_dim 1 with >= ~26 parents; the parameter sweep counts it) -- non-negativity is "
+                  "proved unconditionally. The real-number model takes C^(-1/2) (numpy.linalg.eigh, lazily refreshed) as an arbitrary input of every "
+                  "tell, so no theorem relies on it. The theorems are about hand-written models; the tie to the Python code is the sampled "
+                  "correspondence (discrete structure exact on reproduced Generator streams, update formulas to 1e-9 per step via the numpy "
+                  "transcription harness/c18_util.py, _calc_strat_params against the model's formulas on a dimension x parent-count sweep) plus the "
+                  "translated Adam/GA fragments. The rank-one term of the CMA-ES covariance update carries c1 twice in the code (c1*outer(pc,pc)*c1); "
+                  "the model follows the code (the property only asks for symmetric PSD). OpenAI-ES ignores num_parents by design (it always uses the "
                   "whole ranked batch); this is recorded as an observation, not as a violation of the zero-parents clause.",
     "technique": "Rocq/Coq proof over an executable Gallina model (Q / draw streams) and a real-number model (Coq Reals) + "
                  "py2v-translated fragments with refinement lemmas + model-vs-implementation correspondence run",
@@ -135,6 +142,49 @@ def snap_diff(s1, s2, keys=None):
     return [k for k in (keys or s1.keys()) if not same(s1[k], s2[k])]
 
 
+def initial_deviations(strategy, es, x, case):
+    """fields of a just-reset optimizer that are not the initial distribution at x (C18_initial_distribution, field by field)"""
+    dt = np.dtype(case["dtype"])
+    dim = case["dim"]
+    x = np.asarray(x, dtype=dt)
+    z = np.zeros(dim, dtype=dt)
+    bad = []
+
+    def chk(name, got, want):
+        if not same(got, want):
+            bad.append(name)
+    if strategy in ("cma", "sep", "lm"):
+        chk("mean", es.mean, x)
+        if not (isinstance(es.sigma, (int, float, np.floating)) and float(es.sigma) == float(case["sigma0"])):
+            bad.append("sigma")
+        chk("ps", es.ps, z)
+    if strategy in ("cma", "sep"):
+        chk("pc", es.pc, z)
+        if es.current_eval != 0:
+            bad.append("current_eval")
+        if strategy == "cma":
+            chk("cov", es.cov.cov, np.eye(dim, dtype=dt))
+            chk("eigenvalues", es.cov.eigenvalues, np.ones(dim, dtype=dt))
+            chk("eigenbasis", es.cov.eigenbasis, np.eye(dim, dtype=dt))
+            chk("invsqrt", es.cov.invsqrt, np.eye(dim, dtype=dt))
+            if es.cov.updated_eval != 0:
+                bad.append("updated_eval")
+        else:
+            chk("cov", es.cov.cov, np.ones(dim, dtype=dt))
+    if strategy == "lm":
+        if es.current_gens != 0:
+            bad.append("current_gens")
+        if np.shape(es.m) != (es.n_vectors, dim) or np.any(np.asarray(es.m) != 0):
+            bad.append("m")
+    if strategy in ("openai", "openai_mirror"):
+        chk("theta", np.asarray(es.adam_opt.theta, dtype=np.float64), x.astype(np.float64))
+        if es.noise is not None:
+            bad.append("noise")
+        if not np.isinf(es.last_update_ratio):
+            bad.append("last_update_ratio")
+    return bad
+
+
 class _Hang(Exception):
     pass
 
@@ -148,6 +198,11 @@ def guarded(fn, seconds=20):
     signal.alarm(seconds)
     try:
         return fn()
+    except SystemError as e:
+        # the alarm went off inside a numba dispatcher call: CPython reports "returned a result with an exception set" caused by _Hang
+        if isinstance(e.__cause__, _Hang) or isinstance(e.__context__, _Hang):
+            raise _Hang() from e
+        raise
     finally:
         signal.alarm(0)
         signal.signal(signal.SIGALRM, old)
@@ -217,14 +272,24 @@ def gen_values(case, g, ranking, alt):
         vals = np.empty(b)
         vals[ranking] = srt
         return vals
-    if r.random() < 0.5:
+    u = r.random()
+    if u < 0.2:
         vals = np.empty(b)
         vals[ranking] = [1e6 - 17.5 * k * k for k in range(b)]
         return vals
-    vals = np.empty((b, 2))
-    vals[ranking, 0] = [-(k // 2) for k in range(b)]
-    vals[ranking, 1] = [-(k % 2) - 0.25 * r.random() for k in range(b)]
-    return vals
+    if u < 0.4:
+        vals = np.empty((b, 2))
+        vals[ranking, 0] = [-(k // 2) for k in range(b)]
+        vals[ranking, 1] = [-(k % 2) - 0.25 * r.random() for k in range(b)]
+        return vals
+    # values that do NOT agree with the ranking order: tell must not notice (only ranking_indices carries the order)
+    if u < 0.6:
+        vals = np.empty(b)
+        vals[ranking] = [3.5 * k - 7.0 for k in range(b)]     # ascending along the ranking (= reversed order)
+        return vals
+    if u < 0.75:
+        return np.full(b, 0.125)                               # flat
+    return np.array([r.gauss(0, 5) for _ in range(b)])         # unrelated
 
 
 def P(kind, gen, detail, oracle, **kw):
@@ -258,6 +323,10 @@ def run_case(case, driver, stop_at_first=True):
     twin.reset(x0)
     rng = np.random.default_rng(case["seed"])
     is_oa = strategy in ("openai", "openai_mirror")
+    dev = initial_deviations(strategy, es, x0, case)
+    if dev:
+        probs.append(P("reset-not-initial", 0, "after construction + reset(x0) the fields %s are not the initial distribution at x0 "
+                       "(mean x0, sigma0, zero paths, identity covariance, zero counters)" % dev, True, fields=dev))
     ad = dict(lr=0.001, beta1=0.9, beta2=0.999, epsilon=1e-8, l2_coeff=0.0)
     ad.update(case.get("adam", {}))
     rm, rv, rt = np.zeros(dim), np.zeros(dim), 0   # replica Adam moments (published rule)
@@ -481,6 +550,10 @@ def run_case(case, driver, stop_at_first=True):
             dk = snap_diff(a, b)
             if dk:
                 probs.append(P("reset-not-initial", g, "after reset(x1) the fields %s differ from a freshly constructed optimizer reset at x1" % dk, True, fields=dk))
+            dev = initial_deviations(strategy, es, x1, case)
+            if dev:
+                probs.append(P("reset-not-initial", g, "after a history and reset(x1) the fields %s are not the initial distribution at x1 "
+                               "(mean x1, sigma0, zero paths, identity covariance, zero counters)" % dev, True, fields=dev))
             rm, rv, rt = np.zeros(dim), np.zeros(dim), 0
             stats["resets"] += 1
     return probs, stats
@@ -650,11 +723,12 @@ THEOREMS = {
     "ask-structure": ["C18_bookkeeping (round structure of the resampling loop)"],
     "openai-es-noise-bookkeeping": ["C18_bookkeeping", "C18_bookkeeping_openai_unpatched_refuted"],
     "lm-ma-es-z-bookkeeping": ["C18_bookkeeping"],
-    "out-of-bounds-sample": ["C18_bookkeeping (in-bounds clause)"],
+    "out-of-bounds-sample": ["resample_all_in_bounds"],
     "mean-not-weighted-average": ["C18_weights", "C18_mean_in_hull"], "mean-model": ["C18_mean_in_hull"],
-    "zero-parents-changed-state": ["C18_zero_parents"], "ranking-values-used": ["C18_order_only"],
-    "reset-not-initial": ["C18_reset"], "sigma-not-positive-finite": ["C18_sigma_pos"],
-    "cov-not-symmetric": ["C18_cov_psd_sym"], "cov-not-psd": ["C18_cov_psd_sym", "C18_sep_diag"],
+    "zero-parents-changed-state": ["C18_zero_parents"], "ranking-values-used": ["C18_order_only", "C18_order_only_histories"],
+    "reset-not-initial": ["C18_reset", "C18_initial_distribution"], "sigma-not-positive-finite": ["C18_sigma_pos"],
+    "cov-not-symmetric": ["C18_cov_psd_sym"], "cov-not-psd": ["C18_cov_psd_sym", "C18_sep_diag_pos_partial"],
+    "coefficients": ["C18_cov_coefficients_cma", "C18_cov_coefficients_sep"],
     "update-rule": ["correspondence Model/OptReal.v (via harness/c18_util.py) vs tell()"], "counter": ["C18_zero_parents (counter clause)"],
     "lazy-eigen": ["correspondence: DecompMatrix.update_eigensystem"], "openai-es-update": ["correspondence: Model/Opt.v openai_gradient + published Adam"],
 }
@@ -715,6 +789,74 @@ def check_grad_opts(rep, rng, n):
                 worst = worst or {"optimizer": "GradientAscentOpt", "lr": lr, "theta0": theta0.tolist(), "gradients": [x.tolist() for x in grads[:k + 1]],
                                   "impl_theta": real.tolist(), "published_rule_theta": th.tolist(), "step": k}
                 break
+    return worst
+
+
+# ---------------------------------------------------------------------------------------------------------------
+# strategy parameters: the real _calc_strat_params against the model's formulas (Model/OptReal.v via c18_util) and against the
+# statements of C18_weights / C18_cov_coefficients_* evaluated numerically
+def check_strat_params(rep, rng, tier):
+    from ribs.emitters.opt import CMAEvolutionStrategy, LMMAEvolutionStrategy, SeparableCMAEvolutionStrategy
+    dims = [1, 2, 3, 5, 10, 33, 100] + ([rng.randint(1, 400) for _ in range(6)] if tier == "quick" else list(range(4, 60, 5)) + [rng.randint(1, 3000) for _ in range(20)])
+    mus = [1, 2, 3, 4, 7, 16, 26, 27, 64, 257] + [rng.randint(1, 600) for _ in range(4 if tier == "quick" else 30)]
+    worst = None
+    alpha_zero = 0
+
+    def bad(kind, what, **kw):
+        nonlocal worst
+        if worst is None:
+            worst = dict(kind=kind, what=what, **kw)
+
+    for n in dims:
+        objs = {}
+        with warnings.catch_warnings(), np.errstate(all="ignore"):
+            warnings.simplefilter("ignore")
+            objs["cma"] = CMAEvolutionStrategy(sigma0=1.0, solution_dim=n, batch_size=4, seed=1)
+            objs["sep"] = SeparableCMAEvolutionStrategy(sigma0=1.0, solution_dim=n, batch_size=4, seed=1)
+            objs["lm"] = LMMAEvolutionStrategy(sigma0=1.0, solution_dim=max(n, 1), batch_size=1, seed=1)
+        for mu in mus:
+            ref_w = U.log_weights(mu)
+            for strat, es in objs.items():
+                fn = getattr(es, "_calc_strat_params", None)
+                if fn is None:
+                    rep.count("strat_params_private_method_missing")
+                    continue
+                try:
+                    out = fn(mu) if strat in ("cma", "lm") else fn(n, mu)
+                except Exception as e:  # noqa
+                    bad("strategy-parameters", "%s._calc_strat_params(num_parents=%d) raised %r" % (strat, mu, e), strategy=strat, dim=n, mu=mu)
+                    continue
+                rep.count("strat_params_evaluated")
+                w = np.asarray(out[0], dtype=np.float64)
+                # C18_weights, numerically: positive, strictly decreasing, sum 1, proportional to ln(mu + 1/2) - ln(i)
+                ok_w = (w.shape == (mu,) and np.all(w > 0) and np.all(np.diff(w) < 0) and abs(float(np.sum(w)) - 1.0) <= 1e-12 * max(1, mu ** 0.5)
+                        and np.allclose(w, ref_w, rtol=1e-9, atol=1e-14))
+                if not ok_w:
+                    bad("weights", "%s recombination weights for num_parents=%d are not the normalised ln(mu+1/2)-ln(i): positive, strictly "
+                        "decreasing, summing to 1" % (strat, mu), strategy=strat, dim=n, mu=mu, impl=w[:8].tolist(), model=ref_w[:8].tolist())
+                    continue
+                if strat == "lm":
+                    if not U.rel_close(out[1], U.mueff_of(ref_w), 1e-10):
+                        bad("strategy-parameters", "lm mueff %r differs from the model's %r" % (float(out[1]), float(U.mueff_of(ref_w))), strategy=strat, dim=n, mu=mu)
+                    continue
+                model = (U.cma_params if strat == "cma" else U.sep_params)(n, mu)
+                names = ["weights", "mueff", "cc", "cs", "c1", "cmu"]
+                for nm, a, b in zip(names[1:], out[1:], model[1:]):
+                    if not U.rel_close(a, b, 1e-10):
+                        bad("strategy-parameters", "%s %s = %r differs from the model's formula %r (dim %d, num_parents %d)" % (strat, nm, float(a), float(b), n, mu),
+                            strategy=strat, dim=n, mu=mu, field=nm)
+                _, mueff, cc, cs, c1, cmu = [float(x) if np.ndim(x) == 0 else x for x in out]
+                sw = float(np.sum(w))
+                for hsig in (0, 1):
+                    c1a = c1 * (1 - (1 - hsig ** 2) * cc * (2 - cc))
+                    alpha = 1 - c1a - cmu * sw
+                    cond = (mueff >= 1 - 1e-12 and 0 <= c1a <= c1 * (1 + 1e-15) and 0 <= cmu <= 1 - c1 + 1e-15 and alpha >= -4e-16 * mu ** 0.5)
+                    if not cond:
+                        bad("coefficients", "%s dim %d num_parents %d hsig %d: c1a=%r c1=%r cmu=%r alpha=%r violate 0<=c1a<=c1, 0<=cmu<=1-c1, alpha>=0 "
+                            "(C18_cov_coefficients_%s)" % (strat, n, mu, hsig, c1a, c1, cmu, alpha, strat), strategy=strat, dim=n, mu=mu)
+                    if alpha <= 1e-12:
+                        alpha_zero += 1
+    rep.count("strat_params_alpha_zero_reached", alpha_zero)
     return worst
 
 
@@ -828,7 +970,79 @@ def check_pycma(rep, rng):
             return
 
 
+class _ObsSink:
+    """stands in for the report inside observe_* (which only append to rep.extra['observations'])"""
+
+    def __init__(self):
+        self.extra = {}
+
+
+def observe_strategies(strategies, tier, seed):
+    """moment + convergence observations for the given strategies; returns (records, failures).  Every observation runs under an
+    alarm: an optimizer whose distribution degenerates (e.g. sigma growing without bound) never leaves the resampling loop of ask(),
+    and that is reported as the observation failing, not as a hung check."""
+    sink, fails = _ObsSink(), []
+    with np.errstate(all="ignore"), warnings.catch_warnings():
+        warnings.simplefilter("ignore")
+        for s in strategies:
+            r = random.Random("%s|obs|%s" % (seed, s))
+            if s != "pycma":
+                try:
+                    zmax, rel = guarded(lambda: observe_moments(sink, r, s, 3 if tier == "quick" else 5, 6000 if tier == "quick" else 40000), 40)
+                    if zmax > 7.0 or rel > 0.35:
+                        fails.append({"observation": "moments", "strategy": s, "max_z": zmax, "rel_cov_error": rel})
+                except _Hang:
+                    fails.append({"observation": "moments", "strategy": s, "did_not_terminate_within_s": 40})
+            gens = {"openai": 400, "openai_mirror": 400}.get(s, 120)
+            try:
+                d0, d1, inb = guarded(lambda: observe_convergence(sink, r, s, 3, gens), 40)
+            except _Hang:
+                fails.append({"observation": "convergence", "strategy": s, "did_not_terminate_within_s": 40,
+                              "hint": "ask() keeps resampling under the bounds [-4, 4]^3: the search distribution left the box or blew up"})
+                continue
+            if not (d1 < 0.2 * d0) or not inb:
+                fails.append({"observation": "convergence", "strategy": s, "distance_before": d0, "distance_after": d1, "in_bounds": inb})
+    return sink.extra.get("observations", []), fails
+
+
 # ---------------------------------------------------------------------------------------------------------------
+WORKER_GROUPS = [("cma",), ("sep",), ("lm", "openai", "openai_mirror")]
+ZERO_STATS = {"gens": 0, "multi_round": 0, "mu_mid": 0, "mu0": 0, "ambiguous": 0, "too_long": 0, "resets": 0, "refresh": 0,
+              "bitwise_asks": 0, "asks": 0, "max_rounds": 0}
+_WDRV = None
+
+
+def _worker_init():
+    global _WDRV
+    import common
+    _WDRV = common.Driver()
+
+
+def _run_group(idx_cases, budget, min_cases, drv):
+    import traceback
+    out = []
+    t0 = time.time()
+    for ci, case in idx_cases:
+        if time.time() - t0 > budget and len(out) >= min_cases:
+            break
+        try:
+            with np.errstate(all="ignore"):
+                probs, stats = run_case(case, drv)
+        except Exception as e:  # noqa
+            probs, stats = [P("harness-exception", 0, "%r\n%s" % (e, traceback.format_exc()[-1500:]), False)], dict(ZERO_STATS)
+        out.append((ci, probs, stats))
+    return out
+
+
+def _worker_run(args):
+    """histories of one strategy group, then (kernels compiled by now) the observations of its strategies"""
+    idx_cases, budget, min_cases, strategies, tier, seed = args
+    with warnings.catch_warnings():
+        warnings.simplefilter("ignore")
+        res = _run_group(idx_cases, budget, min_cases, _WDRV)
+        return res, observe_strategies(list(strategies), tier, seed)
+
+
 def check(rep, tier, seed, driver):
     rng = random.Random(seed)
     t_start = time.time()
@@ -836,13 +1050,18 @@ def check(rep, tier, seed, driver):
                 "CMA-ES, sep-CMA-ES, LM-MA-ES, OpenAI-ES (mirror / non-mirror) x dims 1..10 x batch sizes 1..12 x float32/float64 x bounds layouts "
                 "(none, scalar, vector, mixed +-inf, lower only, upper only) tuned so that resampling rounds occur; every ask is reproduced from a "
                 "same-seed numpy Generator with the model deciding the round structure; every tell is compared with the exact-rational model "
-                "(mean, parents, counter), the one-step numpy transcription of the real-number model, the property oracle and a twin fed other "
-                "ranking values. A history is non-trivial when it has >= 2 generations, a tell with 1 < num_parents < batch and an ask with >= 2 "
+                "(mean, parents, counter), the one-step numpy transcription of the real-number model, the property oracle (sigma > 0 finite, covariance symmetric PSD by eigvalsh, "
+                "mean = weighted parents, zero parents change nothing but the counter, reset = initial distribution field by field) and a twin fed OTHER "
+                "ranking values (same order / 2-D / reversed / flat / unrelated to the ranking). Separately: _calc_strat_params of the three classes on a "
+                "dimension x parent-count sweep against the model's formulas and the statements of C18_weights / C18_cov_coefficients_*; Adam / gradient "
+                "ascent step sequences against the published rules. A history is non-trivial when it has >= 2 generations, a tell with 1 < num_parents < batch and an ask with >= 2 "
                 "resampling rounds (mirror sampling: any); distinct by hash of the case")
     # ---- translated fragments
     st = py2v_c18.STATUS
     rep.extra["translator"] = {k: st.get(k) for k in ("ok", "error", "source", "written", "sha")}
+    phases = rep.extra.setdefault("phase_wall_s", {})
     grad_fail = check_grad_opts(rep, rng, 150 if tier == "quick" else 1500)
+    phases["gradient_optimizers"] = round(time.time() - t_start, 1)
     if not st.get("ok"):
         rep.violation("py2v_c18 could not translate AdamOpt.step / GradientAscentOpt.step (fail-closed translator: broken tie): %s" % st.get("error"),
                       {"kind": "translation", "broken": "harness/py2v_c18.py -> coq/Generated/OptGen.v", "error": st.get("error"),
@@ -855,6 +1074,18 @@ def check(rep, tier, seed, driver):
         for v in rep.violations:
             if v["tags"].get("kind") == "build" and "OptRefine" in json.dumps(v["replay"]):
                 v["replay"]["numeric_search"] = "no-failing-input-found: real AdamOpt / GradientAscentOpt agree with the published rules to 1e-12 on %d random sequences" % rep.hist.get("adam_sequences", 0)
+    t1 = time.time()
+    sp = check_strat_params(rep, rng, tier)
+    phases["strategy_parameters"] = round(time.time() - t1, 1)
+    if sp is not None:
+        rep.violation("%s: %s" % (sp["kind"], sp["what"]),
+                      {"kind": "property" if sp["kind"] != "strategy-parameters" else "correspondence",
+                       "broken": {"weights": ["C18_weights"], "coefficients": ["C18_cov_coefficients_cma", "C18_cov_coefficients_sep", "C18_cov_psd_sym"],
+                                  "strategy-parameters": ["correspondence Model/OptReal.v (strategy parameters) vs _calc_strat_params"]}[sp["kind"]],
+                       "case": sp}, sp["kind"] != "strategy-parameters", {"kind": sp["kind"], "strategy": sp.get("strategy")})
+    if rep.hist.get("strat_params_alpha_zero_reached"):
+        rep.notes.append("observation: alpha = 1 - c1a - cmu*sum(w) reaches 0 (to 1e-12) for %d (strategy, dim, num_parents, hsig) combinations of the sweep -- the "
+                         "hypothesis alpha > 0 of C18_sep_diag_pos_partial is not always met (solution_dim 1 with many parents)" % rep.hist["strat_params_alpha_zero_reached"])
     if driver is None:
         rep.violation("extracted model driver not available", {"kind": "harness"}, False, {"kind": "build"})
         return
@@ -867,27 +1098,39 @@ def check(rep, tier, seed, driver):
                 cases.append(json.load(open(os.path.join(cdir, f))))
     rep.count("corpus_cases", len(cases))
     n = 260 if tier == "quick" else 5200
-    budget = 48 if tier == "quick" else 400
+    budget = 30 if tier == "quick" else 300
     # all native strategies x dims 1..10 covered systematically first, then random
     for s in NATIVE:
         for _ in range(4 if tier == "quick" else 20):
             cases.append(gen_case(rng, tier, s))
     cases += [gen_case(rng, tier) for _ in range(n)]
     reported = set()
-    tot = {"asks": 0, "multi": 0}
     t0 = time.time()
-    for ci, case in enumerate(cases):
-        if time.time() - t0 > budget and ci > 40:
-            rep.count("cases_skipped_for_time", len(cases) - ci)
-            break
-        try:
-            with np.errstate(all="ignore"):
-                probs, stats = run_case(case, driver)
-        except Exception as e:  # noqa
-            import traceback
-            probs, stats = [P("harness-exception", 0, "%r\n%s" % (e, traceback.format_exc()[-1500:]), False)], {"gens": 0, "multi_round": 0, "mu_mid": 0, "mu0": 0,
-                                                                                                                 "ambiguous": 0, "too_long": 0, "resets": 0, "refresh": 0,
-                                                                                                                 "bitwise_asks": 0, "asks": 0, "max_rounds": 0}
+    # The numba JIT of the strategies' kernels (one compilation per dtype x bounds-layout signature, ~1 s each) dominates the run:
+    # the histories are split by strategy over forked workers (each with its own model driver), so the compilations proceed in parallel.
+    # Cases and their order are fixed by the seed; only how many fit into the time budget depends on the machine.
+    groups = [[(ci, c) for ci, c in enumerate(cases) if c["strategy"] in g] for g in WORKER_GROUPS]
+    min_cases = 12 if tier == "quick" else 40
+    results = obs_parts = None
+    try:
+        import multiprocessing
+        ctx = multiprocessing.get_context("fork")
+        with ctx.Pool(processes=len(groups), initializer=_worker_init) as pool:
+            parts = pool.map(_worker_run, [(g, budget, min_cases, sg, tier, seed) for g, sg in zip(groups, WORKER_GROUPS)], chunksize=1)
+        results = sorted((r for part, _ in parts for r in part), key=lambda r: r[0])
+        obs_parts = [o for _, o in parts]
+        rep.count("history_workers", len(groups))
+    except Exception as e:  # noqa  (no fork / pool failure: run in this process)
+        rep.notes.append("worker pool unavailable (%r): histories run sequentially" % (e,))
+    if results is None:
+        results = []
+        for g in groups:
+            results += _run_group(g, budget / len(groups), min_cases, driver)
+        results.sort(key=lambda r: r[0])
+    if len(results) < len(cases):
+        rep.count("cases_skipped_for_time", len(cases) - len(results))
+    for ci, probs, stats in results:
+        case = cases[ci]
         rep.count("strategy_" + case["strategy"])
         rep.count("dim_%d" % case["dim"])
         rep.count("batch_%d" % case["batch"])
@@ -907,6 +1150,7 @@ def check(rep, tier, seed, driver):
                     rep.violation("harness exception on a case: " + probs[0]["detail"][:300], {"kind": "harness-crash", "case": case, "trace": probs[0]["detail"]}, False, {"kind": "crash"})
             else:
                 report_problem(rep, case, kind, driver, reported)
+    phases["histories"] = round(time.time() - t0, 1)
     if rep.hist.get("openai_zero_parents_moves_theta"):
         rep.notes.append("observation (not reported as a violation): OpenAIEvolutionStrategy.tell ignores num_parents, so num_parents = 0 still moves theta "
                          "(%d tells here); the zero-parents clause is claimed for the log-rank-weighted strategies (CMA-ES, sep-CMA-ES, LM-MA-ES)" % rep.hist["openai_zero_parents_moves_theta"])
@@ -914,23 +1158,27 @@ def check(rep, tier, seed, driver):
     if asks and multi < 0.08 * asks:
         rep.violation("generator degenerate: only %d of %d asks needed a second resampling round" % (multi, asks), {"kind": "generator"}, False, {"kind": "generator"})
     # ---- pycma + observations
-    check_pycma(rep, rng)
     obs_fail = []
-    with np.errstate(all="ignore"):
-        for s in NATIVE:
-            zmax, rel = observe_moments(rep, rng, s, 3 if tier == "quick" else 5, 6000 if tier == "quick" else 40000)
-            if zmax > 7.0 or rel > 0.35:
-                obs_fail.append({"observation": "moments", "strategy": s, "max_z": zmax, "rel_cov_error": rel})
-        strategies = NATIVE + (["pycma"] if _has_cma() else [])
-        for s in strategies:
-            dim = 3
-            gens = {"openai": 400, "openai_mirror": 400}.get(s, 120)
-            d0, d1, inb = observe_convergence(rep, rng, s, dim, gens)
-            if not (d1 < 0.2 * d0) or not inb:
-                obs_fail.append({"observation": "convergence", "strategy": s, "distance_before": d0, "distance_after": d1, "in_bounds": inb})
+    t1 = time.time()
+    try:
+        guarded(lambda: check_pycma(rep, rng), 60)
+    except _Hang:
+        obs_fail.append({"observation": "pycma", "strategy": "pycma", "did_not_terminate_within_s": 60})
+    strategies = ["pycma"] if _has_cma() else []
+    if obs_parts is None:           # no worker pool: observe here
+        strategies = NATIVE + strategies
+    else:
+        for recs, fails in obs_parts:
+            rep.extra.setdefault("observations", []).extend(recs)
+            obs_fail += fails
+    recs, fails = observe_strategies(strategies, tier, seed)
+    rep.extra.setdefault("observations", []).extend(recs)
+    obs_fail += fails
+    rep.extra["observations"].sort(key=lambda o: (o["observation"], o["strategy"]))
     for o in obs_fail:
         rep.violation("observation outside its (generous) threshold: %s" % o, {"kind": "observation", "observation": o}, True,
                       {"kind": "observation-" + o["observation"], "strategy": o["strategy"]})
+    phases["pycma_and_observations"] = round(time.time() - t1, 1)
     rep.extra["harness_wall_s"] = round(time.time() - t_start, 1)
 
 
